@@ -222,3 +222,12 @@ def capture_limit_programs():
             if split == 0:
                 out.append(("capture-one-level/%d" % min(k, 250), src2))
     return out
+
+
+def s_fiber_cells(g, depth):
+    """captured variables that live on the stack of a fiber: shared by their closures while the fiber is suspended, after
+    it was abandoned, and after it finished (see feat_fiber.abandoned_accessors)"""
+    from . import feat_fiber
+    if g.fdepth > 0:
+        return s_shared(g, depth)
+    return feat_fiber.abandoned_accessors(g)
